@@ -137,7 +137,7 @@ func (ev *evidence) write(rc *runCtx) {
 		"seed":        rc.seed,
 		"level":       ev.spec.Level,
 		"coverage":    cov,
-		"assumptions": ev.spec.Assumptions,
+		"assumptions": append([]string{}, ev.spec.Assumptions...),
 		"wall_s":      time.Since(rc.start).Seconds(),
 		"violations":  ev.Violations,
 	}
